@@ -4,7 +4,8 @@
    filters: external code) is a parameter of every statement: the theorems hold for any matcher and any filter. *)
 From Coq Require Import List NArith ZArith.
 From Muscle Require Import Refl.Base Refl.Matcher Refl.Session Refl.Server Refl.Bounded Refl.BoundedSpec
-  Refl.BoundedProofs Refl.BoundedRefuted Refl.BoundedServe.
+  Refl.BoundedProofs Refl.BoundedRefuted Refl.BoundedServe Refl.BoundedLoops Refl.BoundedTrav
+  Refl.Tree Refl.Traverse Refl.Dispatch Refl.DispatchProofs Gen.Consts.
 Import ListNotations.
 
 (* JettisonOutgoingResults (repaired loop, RemoveData(name, j)): for every queue and every matcher it returns as soon as
@@ -44,6 +45,50 @@ Theorem C07_server_run_total : forall (M : MatchOps) (fx : fixes) (fuel : nat) (
   2 <= fuel -> rpeak fx evs b < fuel -> brun fx true fuel evs b = Some (brun_spec fx evs b).
 Proof. exact @server_run_total. Qed.
 Print Assumptions C07_server_run_total.
+
+(* the same for the sources the check runs on: [code_jfix] / [code_fixes] are computed from regenerated flags; if the loop
+   regresses to the queue index, [code_jfix] is false and this theorem no longer checks *)
+Theorem C07_code_run_total : forall (M : MatchOps) (fuel : nat) (evs : list bevent) (b : bserver),
+  2 <= fuel -> rpeak code_fixes evs b < fuel ->
+  brun code_fixes code_jfix fuel evs b = Some (brun_spec code_fixes evs b).
+Proof. exact @code_run_total. Qed.
+Print Assumptions C07_code_run_total.
+
+(* NodeChangedAux written on fuel with its nest counter (cap c_max_node_changed_aux_nest_count) IS the structural
+   definition of the shared model: the "flush, then start again" recursion nests exactly once, the cap is never reached *)
+Theorem C07_node_changed_aux_fuel : forall (M : MatchOps) (fuel nest : nat) (sv : server) (s : sid) (p : path) (d : payload) (removed : bool),
+  3 <= fuel -> nest < max_nca_nest ->
+  nca_rec fuel nest sv s p d removed = Some (node_changed_aux sv s p d removed).
+Proof. exact @nca_rec_spec. Qed.
+Print Assumptions C07_node_changed_aux_fuel.
+
+(* DataNode::RemoveChild(key, notify, recurse): `while(HasChildren()) RemoveChild(first)` returns within fuel linear in the
+   number of nodes; afterwards the node is gone and no node was added *)
+Theorem C07_remove_child_fuel : forall (M : MatchOps) (by_ : sid) (notify : bool) (sv : server) (p : path) (fuel : nat),
+  2 * length (sv_tree sv) + 2 <= fuel ->
+  exists sv', remove_rec (leave_node by_ notify) fuel sv p = Some sv' /\
+              find_node (sv_tree sv') p = None /\ length (sv_tree sv') <= length (sv_tree sv).
+Proof. exact @remove_child_fuel. Qed.
+Print Assumptions C07_remove_child_fuel.
+
+(* NodePathMatcher::DoTraversalAux: the fuel the shared model gives it (clause levels + 1) is adequate -- any larger
+   amount gives the same result, for every callback, tree, pattern set and starting node *)
+Theorem C07_traversal_fuel : forall (M : MatchOps) (A : Type) (cb : A -> node -> A * Z) t m root uf gf acc extra,
+  do_traversal cb t m root uf gf acc =
+  fst (trav A cb t m (length root) uf gf (S (max_clauses m) + extra) root acc).
+Proof. exact @do_traversal_fuel. Qed.
+Print Assumptions C07_traversal_fuel.
+
+(* the what-code dispatch over the regenerated constants: every code of the command range reaches a modelled handler
+   (unknown codes are bounced), except three named commands; codes outside the range are never dispatched to a handler *)
+Theorem C07_dispatch_range_modelled : forall what,
+  in_command_range what = true -> modelled (dispatch what) = true \/ In what unmodelled_commands.
+Proof. exact dispatch_range_modelled. Qed.
+Print Assumptions C07_dispatch_range_modelled.
+
+Theorem C07_case_labels_reached : forall k h, In (k, h) case_labels -> dispatch k = h.
+Proof. exact case_labels_reached. Qed.
+Print Assumptions C07_case_labels_reached.
 
 (* THE PROPERTY in model form.  For every state in which client w is attached and reading, and every finite history of
    events of OTHER sessions -- any modelled command with any patterns and filters, batches of any nesting, sessions
